@@ -75,6 +75,8 @@ def _evaluate(e, env, bits=64):
         op = e[1]
         a = evaluate(e[2], env, bits)
         b = evaluate(e[3], env, bits)
+        if not isinstance(a, (int, float)) or not isinstance(b, (int, float)):
+            raise Uneval("operands of %s are not numbers" % op)
         fl = isinstance(a, float) or isinstance(b, float)
         if op == "Add":
             return a + b
@@ -211,7 +213,18 @@ def _evaluate(e, env, bits=64):
                 cache[e[1]] = s_.at(rets[0]).local(0) if rets else ("unknown",)
             cenv = dict(env)
             cenv.pop("@cache", None)
-            for i, a in enumerate(e[2]):
+            call_args = list(e[2])
+            if "{closure" in e[1] and len(call_args) == 2 and call_args[1][0] == "agg" and call_args[1][1] == "tuple":
+                # a direct call of a closure body: (captures, (args...)) -> captures become arg1.N, the tuple is spread
+                try:
+                    clo = evaluate(call_args[0], env, bits)
+                    if isinstance(clo, tuple) and clo and clo[0] == "$closure":
+                        for i_, cv in enumerate(clo[2]):
+                            cenv["arg1.%d" % i_] = cv
+                except Uneval:
+                    pass
+                call_args = [("const", 0)] + list(call_args[1][2])
+            for i, a in enumerate(call_args):
                 nm = cf.local_name(i + 1)
                 if nm and a[0] == "constdict":
                     for fk, fv in a[1]:
@@ -238,6 +251,29 @@ def _evaluate(e, env, bits=64):
                         sub[nm] = (a, env)
                         cenv["@subst"] = sub
             return evaluate(cache[e[1]], cenv, bits)
+        if name in ("call", "call_mut", "call_once") and len(e[2]) == 2 and env.get("@prog") is not None:
+            # invocation of a closure value: evaluate the closure body with its captures and arguments bound
+            try:
+                clo = evaluate(e[2][0], env, bits)
+            except Uneval:
+                clo = None
+            if isinstance(clo, tuple) and clo and clo[0] == "$closure" and clo[1] in env["@prog"].fns:
+                cf = env["@prog"].fns[clo[1]]
+                argv = evaluate(e[2][1], env, bits)
+                if not isinstance(argv, tuple):
+                    argv = (argv,)
+                cache = env.setdefault("@retexpr", {})
+                if clo[1] not in cache:
+                    s_ = sym.Sym(env["@prog"], cf)
+                    rets = [b.idx for b in cf.blocks if b.term[0] == "return" and not b.cleanup]
+                    cache[clo[1]] = s_.at(rets[0]).local(0) if rets else ("unknown",)
+                cenv = dict(env)
+                cenv.pop("@cache", None)
+                for i_, cv in enumerate(clo[2]):
+                    cenv["arg1.%d" % i_] = cv
+                for i_, av in enumerate(argv):
+                    cenv[cf.local_name(i_ + 2) or "arg%d" % (i_ + 2)] = av
+                return evaluate(cache[clo[1]], cenv, bits)
         if name in ("index", "index_mut") and len(e[2]) == 2:
             try:
                 base_ = evaluate(e[2][0], env, bits)
